@@ -49,6 +49,10 @@ impl<U: View, V: View> Propagate for LessThanOrEquals<U, V> {
 /// below a float **variable** `y` is different: `x + 1 <= y` would push `y` a whole unit above `x`
 /// (`x = 5`, `y = 5.25` satisfies `x < y` but not `x + 1 <= y`), so the strictness is taken on
 /// the float side instead, `x <= y.prev()`, one step of `y` below `y`.
+/// Against a float **constant** `c` there is no step to take and the successor is wrong on both
+/// sides (`x + 1 <= 6.625` loses `x = 6`; the successor of a float constant is the constant itself,
+/// so `2.0 < x` would accept `x = 2`): the integer side is bounded directly, `x <= ceil(c) - 1`
+/// for `x < c` and `x >= floor(c) + 1` for `c < x`.
 #[derive(Clone, Copy, Debug)]
 #[doc(hidden)]
 pub struct LessThan<U, V> {
@@ -64,16 +68,49 @@ impl<U, V> LessThan<U, V> {
 
 impl<U: View, V: View> Prune for LessThan<U, V> {
     fn prune(&self, ctx: &mut Context) -> Option<()> {
+        use crate::variables::Val;
         use crate::variables::views::{ViewExt, ViewType};
 
         let int_below_float_var = self.x.result_type(ctx) == ViewType::Integer
             && self.y.result_type(ctx) == ViewType::Float
             && self.y.get_underlying_var().is_some();
 
+        let x_type = self.x.result_type(ctx);
+        let y_type = self.y.result_type(ctx);
+        let int_below_float_const = x_type == ViewType::Integer
+            && y_type == ViewType::Float
+            && self.y.get_underlying_var().is_none();
+        let float_const_below_int = x_type == ViewType::Float
+            && self.x.get_underlying_var().is_none()
+            && y_type == ViewType::Integer;
+
         if int_below_float_var {
             let y_prev = self.y.prev();
             let _max = self.x.try_set_max(y_prev.max(ctx), ctx)?;
             let _min = y_prev.try_set_min(self.x.min(ctx), ctx)?;
+        } else if int_below_float_const {
+            // x < c over the integers is x <= ceil(c) - 1
+            let c = match self.y.max(ctx) {
+                Val::ValF(c) => c,
+                Val::ValI(c) => f64::from(c),
+            };
+            let bound = c.ceil() - 1.0;
+            if !(bound >= f64::from(i32::MIN)) {
+                return None; // no integer lies below c (or c is NaN)
+            }
+            // `as` saturates: a bound above i32::MAX prunes nothing
+            let _max = self.x.try_set_max(Val::ValI(bound as i32), ctx)?;
+        } else if float_const_below_int {
+            // c < y over the integers is y >= floor(c) + 1
+            let c = match self.x.min(ctx) {
+                Val::ValF(c) => c,
+                Val::ValI(c) => f64::from(c),
+            };
+            let bound = c.floor() + 1.0;
+            if !(bound <= f64::from(i32::MAX)) {
+                return None; // no integer lies above c (or c is NaN)
+            }
+            let _min = self.y.try_set_min(Val::ValI(bound as i32), ctx)?;
         } else {
             let x_next = self.x.next();
             let _max = x_next.try_set_max(self.y.max(ctx), ctx)?;
